@@ -175,11 +175,28 @@ func init() {
 		o.rejectsAfter(cr, L("p1[p0.Receiver]#1", false), "undefined-receiver", "a route naming an undefined receiver")
 		ct := o.Fn("am/config.checkTimeInterval")
 		for _, f := range []string{"ActiveTimeIntervals", "MuteTimeIntervals"} {
-			o.rejectsAfter(ct, L("p1[p0."+f+"[i]]#1", false), "undefined-interval|"+f, "a route naming an undefined interval in "+f)
+			// the names of the list are looked up one by one, directly or through a literal list of the
+			// route's name lists ([][]string{active, mute})
+			lit := `\[(.*, )?p0\.` + f + `(, .*)?\]`
+			key := `(p0\.` + f + `\[i\]|` + lit + `\[i\]\[i\])`
+			o.rejectsAfter(ct, LRe(`p1\[`+key+`\]#1`, false), "undefined-interval|"+f, "a route naming an undefined interval in "+f)
 			found := false
 			for _, l := range e.Loops(ct) {
-				if coll, kind := e.RangeOver(l); coll == "p0."+f && kind == "index" {
+				coll, kind := e.RangeOver(l)
+				if kind != "index" {
+					continue
+				}
+				if coll == "p0."+f {
 					found = true
+				}
+				if regexpMatch(lit+`\[i\]`, coll) {
+					// the inner loop of the literal form: the outer one must visit every list of the literal
+					for _, ol := range e.Loops(ct) {
+						oc, ok2 := e.RangeOver(ol)
+						if ok2 == "index" && regexpMatch(lit, oc) && ol.Blocks[l.Header.Index] {
+							found = true
+						}
+					}
 				}
 			}
 			o.Check(found, "interval-range|"+f, "every name in "+f+" must be checked", nil)
@@ -249,22 +266,36 @@ func init() {
 		rl := o.Fn("(*am/config.Coordinator).Reload")
 		lf := o.One(e.Calls(rl, "am/config.LoadFile"), "coord-load", "the coordinator must load the file", rl)
 		o.Check(e.Arg(lf, 0) == "recv.configFilePath", "coord-load-arg", "the coordinator must load its configured file", lf)
-		ns := o.One(e.Calls(rl, "(*am/config.Coordinator).notifySubscribers"), "coord-notify", "the coordinator must notify subscribers", rl)
-		o.Site(ns, "notifySubscribers")
+		// (the notification helper is read through: the subscribers are called in Reload itself)
+		var ns *ssa.Call
+		for _, in := range AllInstrs(rl) {
+			if c, ok := in.(*ssa.Call); ok && !c.Call.IsInvoke() && c.Call.StaticCallee() == nil && e.X(rl, c.Call.Value) == "recv.subscribers[i]" {
+				o.Check(ns == nil, "coord-notify", "subscribers are notified at more than one site of Reload", c)
+				ns = c
+			}
+		}
+		o.Require(ns != nil, "coord-notify", "the coordinator must notify subscribers", fnFirst(rl))
+		o.Site(ns, "subscriber(config)")
+		o.Check(e.Arg(ns, 0) == "recv.config", "coord-notify-arg", "subscribers must be handed the coordinator's configuration, get "+e.Arg(ns, 0), ns)
+		if nl := e.LoopOf(ns); o.Check(nl != nil, "coord-notify-loop", "subscribers are not notified in a loop", ns) {
+			coll, kind := e.RangeOver(nl)
+			o.Check(coll == "recv.subscribers" && kind == "index", "coord-notify-range", "every subscriber must be notified", ns)
+			o.LoopExitsGuarded(nl, "coord-notify-exit", "the notification may only stop at a subscriber that rejects the configuration", L("("+e.X(rl, ns)+" == nil)", false))
+			o.Check(!loopBackWithout(o, nl, IsInstr(ns), nil), "coord-notify-skip", "a subscriber can be skipped", ns)
+		}
 		o.Guarded(ns, "coord-order", "applying a configuration", L("("+e.X(rl, lf.(*ssa.Call))+"#1 == nil)", true))
 		// what subscribers are notified of is what was loaded
 		cfgSt := e.StoresTo(rl, "recv.config")
 		if o.Check(len(cfgSt) >= 1, "coord-store", "the loaded configuration is not stored before subscribers are notified", ns) {
 			for _, st := range cfgSt {
 				o.Check(e.X(rl, st.Val) == e.X(rl, lf.(*ssa.Call))+"#0", "coord-store-value", "the stored configuration must be the one just loaded", st)
-				o.Check(InstrDominates(st, ns) || !(&Walk{Fn: rl}).After(st).Has(ns) == false, "coord-store-order", "", st)
 			}
 			o.Precedes(ns, "coord-store-first", "subscribers are notified before the loaded configuration is stored", func(in ssa.Instruction) bool {
 				st, ok := in.(*ssa.Store)
 				return ok && e.X(rl, st.Addr) == "recv.config"
 			})
 		}
-		o.rejectsAfter(rl, L("("+e.X(rl, ns.(*ssa.Call))+" == nil)", false), "coord-error", "a subscriber that rejects the configuration")
+		o.rejectsAfter(rl, L("("+e.X(rl, ns)+" == nil)", false), "coord-error", "a subscriber that rejects the configuration")
 		o.MinSites(6)
 	})
 
